@@ -1,6 +1,7 @@
 import SpdxVerif.Props.C14Cost
 import SpdxVerif.Props.C14Poly
 import SpdxVerif.Props.C14
+import SpdxVerif.Props.C14Heap
 #print axioms Spdx.C14.expandTerm_length
 #print axioms Spdx.C14.expand_length
 #print axioms Spdx.C14.alts_andOfOrs
@@ -19,3 +20,7 @@ import SpdxVerif.Props.C14
 #print axioms Spdx.C14.dnf_shaped_quadratic
 #print axioms Spdx.C14.orRank_le_lparens
 #print axioms Spdx.C14.cost_polynomial_in_parens
+#print axioms Spdx.C14.heap_allocs_le
+#print axioms Spdx.C14.heap_appendTerms_allocs
+#print axioms Spdx.C14.allocBound_le
+#print axioms Spdx.C14.heap_allocs_le_terms_alts
